@@ -14,10 +14,10 @@ EXPLANATION = (
     'printing; (R09.3) restore, rm and empty act on the pair (pbc(I), I) of one listed I; '
     '(R09.4) list, empty and rm obtain their trash directories from the same scanner '
     'generator, so they see the same set; (R09.7) no reader guards the listing of '
-    '$topdir/.Trash-$uid with a no-follow test on it (trash-put fills a symlinked one).  '
+    '$topdir/.Trash-$uid with a no-follow test on it (trash-put fills a symlinked one); (R09.8) in empty, list, rm and restore no generator object is iterated by a second loop on a run-consistent path from the end of a first one (the second walk would see nothing).  '
     'Restore\'s separate enumerator is judged under C20/C08.')
 ASSUMPTIONS = ['a trash entry is the pair files/N + info/N.trashinfo (spec)']
-MINIMUM = {'R09.1': 6, 'R09.2': 4, 'R09.3': 3, 'R09.4': 3, 'R09.5': 3, 'R09.6': 4, 'R09.7': 3}
+MINIMUM = {'R09.1': 6, 'R09.2': 4, 'R09.3': 3, 'R09.4': 3, 'R09.5': 3, 'R09.6': 4, 'R09.7': 3, 'R09.8': 4}
 SUFFIX = '.trashinfo'
 
 
@@ -317,3 +317,15 @@ def check(ctx):
                                        'test %s on it: a symlinked .Trash-$uid that trash-put '
                                        'fills is invisible to %s'
                                        % (cmd, bad.data['prim'] if bad else '', cmd))
+    # ---- R09.8 what a command works on is what it selected: a generator of trash
+    # directories / entries that is walked once (for the prompt, for a count) is exhausted
+    # when it is walked again to do the work -- nothing is purged / listed, silently
+    for cmd in ('empty', 'list', 'rm', 'restore'):
+        bb = ctx.graph(cmd)
+        tw = generators_iterated_twice(bb)
+        ctx.ob('R09.8', '%s: no generator is iterated a second time after it was consumed'
+               % cmd, not tw, node=(tw[0][1] if tw else next(iter(bb.nodes('loop')), None)),
+               message='%s iterates the generator %s here after the loop at %s has consumed it: '
+                       'the second walk sees nothing, so the entries selected are neither '
+                       'purged nor listed although the command reports success'
+                       % (cmd, tw[0][2] if tw else '', tw[0][0].loc() if tw else ''))
